@@ -25,6 +25,9 @@ package fs
 //@   ensures[C07.create-prealloc] result1 == nil && size > 0 ==> traced("openfile(excl-create,rdwr)", "preallocate(extend)")
 //@   ensures[C07.create-new-flag] result1 == nil ==> isdyn(result0, "fs.File") && result0.new == 0
 //@   ensures[C07.failed-create-leaves-nothing] result1 != nil && f != nil ==> traced("close(file)") && traced("unlink")
+//@   -- an exclusive create that is refused (the name exists) did not create the
+//@   -- file: it must not unlink what is there (a live segment of the same name)
+//@   ensures[C07.refused-create-keeps-existing] f == nil ==> nevent("unlink") == 0
 
 //@ func (*FS).Delete
 //@   props C07
